@@ -76,9 +76,12 @@ def make_cfgs(rng, n, months_choices=(12, 13, 24)):
         geom_kind = GEOMS[i % len(GEOMS)]
         pipe = ghelib.PIPE_KINDS[(i // len(GEOMS) + i) % 4]
         phys = ghelib.default_physics() if rng.random() < 0.25 else ghelib.random_physics(rng)
+        # design fluid temperature: the default 20 C, or a cold-climate value for antifreeze mixtures (and cool water)
+        phys["fluid_temp"] = [20.0, 20.0, 8.0, 2.0][i % 4] if phys["fluid"][0] != "Water" else [20.0, 12.0][i % 2]
         kind, scale, loads = ghelib.make_profile(rng, kind=rng.choice(["atlanta", "atlanta", "atlanta_neg", "balanced", "spiky", "constant", "heating_only", "cooling_only"]),
                                                  scale=rng.choice([10 ** rng.uniform(-1.7, -0.2)] * 5 + [10 ** rng.uniform(-3.0, -1.7), 10 ** rng.uniform(-0.2, 0.9)]))
-        window = rng.choice([(60.0, 135.0), (60.0, 135.0), (30.0, 90.0), (100.0, 200.0), (80.0, 80.5)])
+        # height windows: round metres, a very narrow one, and bounds converted from feet (sub-millimetre digits, float noise)
+        window = rng.choice([(60.0, 135.0), (60.0, 135.0), (30.0, 90.0), (100.0, 200.0), (80.0, 80.5), (60.99048, 125.2728), (45.72, 114.30000000000001)])
         cfg = {
             "id": i,
             "phys": phys,
@@ -120,6 +123,15 @@ def make_cfgs(rng, n, months_choices=(12, 13, 24)):
             cfg["scale"], cfg["cont"], cfg["profile"] = 6.0 + (i % 3), False, "atlanta_neg"
             cfg["loads"] = [-x * cfg["scale"] for x in ghelib.atlanta_loads()]
         cfgs.append(cfg)
+    # call history across managers: some ordinary runs are preceded, in the same process, by the design of a
+    # sibling project that differs in exactly one physical input
+    twins = ["grout_k", "pipe_k", "grout_rho_cp", "grout_k", "soil_k", "fluid"]
+    n_tw = 0
+    for i, cfg in enumerate(cfgs):
+        forced = (i // len(GEOMS) + i % len(GEOMS)) % 4
+        if forced == 0 or (forced == 3 and i % 3 != 0):        # the ordinary (not forced) searches
+            cfg["twin_first"] = twins[n_tw % len(twins)]
+            n_tw += 1
     # history: every third configuration is followed, ON THE SAME MANAGER, by a second project that
     # re-applies only the loads and the geometry (simulation parameters, borehole, pipe, media are
     # left as they are) and calls set_design / find_design again; the same final configuration is
@@ -131,7 +143,27 @@ def make_cfgs(rng, n, months_choices=(12, 13, 24)):
         kind, scale, loads = ghelib.make_profile(rng, kind=rng.choice(["atlanta", "atlanta_neg", "balanced"]),
                                                  scale=cfg["scale"] * rng.choice([0.2, 0.5, 3.0, 8.0]))
         g2 = make_geom(rng, rng.choice([cfg["geom"][0], GEOMS[(GEOMS.index(cfg["geom"][0]) + 1) % len(GEOMS)]]))
-        b = {**cfg, "id": len(cfgs) + len(extra), "profile": kind, "scale": scale, "loads": loads, "geom": g2, "follows": cfg["id"]}
+        b = {**cfg, "id": len(cfgs) + len(extra), "profile": kind, "scale": scale, "loads": loads, "geom": g2, "follows": cfg["id"], "follow_mode": "partial"}
+        if len(extra) % 2 == 1:
+            # every second follower is a COMPLETE re-configuration of the same manager (all setters called
+            # again): nothing of project A may survive.  Two kinds alternate: "horizon" — another horizon,
+            # other limits, another grout, ordinary loads, no cap, no continue flag (so the result is judged
+            # strictly); "policy" — the continue flag flipped and another cap
+            ph = dict(cfg["phys"])
+            ph["grout"] = (round(min(2.5, max(0.6, ph["grout"][0] * rng.choice([0.5, 1.6]))), 3), ph["grout"][1])
+            b.update({"follow_mode": "full", "phys": ph,
+                      "months": rng.choice([mm for mm in months_choices if mm != cfg["months"]] or [cfg["months"] + 12]),
+                      "max_eft": rng.choice([v for v in (35.0, 32.0, 38.0) if v != cfg["max_eft"]]),
+                      "min_eft": rng.choice([v for v in (5.0, 2.0, 0.0) if v != cfg["min_eft"]])})
+            if (len(extra) // 2) % 2 == 0:
+                sc = 10 ** rng.uniform(-1.6, -0.8)
+                b.update({"follow_kind": "horizon", "cont": False, "max_boreholes": None, "profile": "atlanta", "scale": sc,
+                          "loads": [x * sc for x in ghelib.atlanta_loads()]})
+                if b["months"] < cfg["months"]:
+                    b["months"] = cfg["months"] + 12          # a LONGER horizon than project A's
+            else:
+                b.update({"follow_kind": "policy", "cont": not cfg["cont"],
+                          "max_boreholes": rng.choice([v for v in (None, 5, 12, 40) if v != cfg.get("max_boreholes")])})
         cfg["followed_by"] = {k: v for k, v in b.items()}
         extra.append(b)
     return cfgs + extra
@@ -243,6 +275,7 @@ def resimulate(cfg, coords, height, at_returned_height: bool, base_height=None):
     # mirror the manager: pipe built through the same setter arithmetic
     m = ghelib.build_manager({**cfg, "phys": phys, "nominal_height": phys["borehole"][0]})
     fluid, pipe, grout, soil, borehole, bhe_type = m._fluid, m._pipe, m._grout, m._soil, m._borehole, m.pipe_type
+    fluid = ghelib.media(phys)[0]       # the fluid the user asked for (name, concentration, design temperature), not the manager's copy
     sim = SimulationParameters(1, cfg["months"], cfg["max_eft"], cfg["min_eft"], cfg["max_h"], cfg["min_h"])
     n = len(coords)
     v = cfg["flow"]
@@ -269,6 +302,15 @@ def run_design(cfg):
     rec = Recorder()
     out = {"id": cfg["id"], "cfg": {k: v for k, v in cfg.items() if k != "loads"}, "loads_sha": hashlib.sha256(repr(cfg["loads"]).encode()).hexdigest()[:12]}
     try:
+        if cfg.get("twin_first"):
+            # another design directly before, in this process, on its own manager: the same project except for
+            # ONE physical input (anything the first leaves behind in module-level state must not reach the second)
+            try:
+                with ghelib.quiet():
+                    ghelib.build_manager(twin_cfg(cfg)).find_design()
+                out["twin_first"] = cfg["twin_first"]
+            except Exception as e:  # noqa: BLE001
+                out["twin_first"] = f"{cfg['twin_first']} (raised {type(e).__name__})"
         with ghelib.quiet(), instrument(rec):
             m = ghelib.build_manager(cfg)
             design = m._design
@@ -318,11 +360,10 @@ def run_design(cfg):
         out["evals"] = rec.evals
         out["roots"] = rec.roots
         out["sizes"] = rec.sizes
-        # evaluation-log faithfulness: re-do up to three logged evaluations from fresh objects exactly
-        # as the search stage does (GHE built at that height on a one-height g-function) -- the first
-        # two (smallest field at min and max height) and the predecessor of the selected candidate
+        # evaluation-log faithfulness: up to three logged evaluations are re-done from fresh objects IN A
+        # FRESH PROCESS (oracle_job) exactly as the search stage does; here only the picks are recorded
         try:
-            out["eval_checks"] = recheck_evals(cfg, out, m._design if "m" in dir() else None)
+            out["eval_picks"] = pick_evals(cfg, out, m._design if "m" in dir() else None)
         except Exception as e:  # noqa: BLE001
             out["eval_checks_error"] = f"{type(e).__name__}: {e}"
         if cfg.get("followed_by") is not None and "m" in dir():
@@ -337,8 +378,6 @@ def run_design(cfg):
                     classify_pre(fe[0]["excess"], fe[1]["excess"], fe[2]["excess"]) == "tooSmall":
                 base = cfg["min_h"]
             out["oracle_base_height"] = base
-            out["oracle_a"] = resimulate(cfg, out["coords"], out["H"], at_returned_height=False, base_height=base)
-            out["oracle_b"] = resimulate(cfg, out["coords"], out["H"], at_returned_height=True)
     except Exception as e:  # noqa: BLE001  infrastructure problem inside the worker
         out["outcome"] = "harness-error"
         out["message"] = f"{type(e).__name__}: {e}"
@@ -399,6 +438,7 @@ def search_stage_excess(cfg, coords, h):
     phys["borehole"] = (h, phys["borehole"][1], phys["borehole"][2])
     m = ghelib.build_manager({**cfg, "phys": phys, "nominal_height": h})
     fluid, pipe, grout, soil, borehole, bhe_type = m._fluid, m._pipe, m._grout, m._soil, m._borehole, m.pipe_type
+    fluid = ghelib.media(phys)[0]
     sim = SimulationParameters(1, cfg["months"], cfg["max_eft"], cfg["min_eft"], cfg["max_h"], cfg["min_h"])
     n = len(coords)
     v = cfg["flow"]
@@ -412,8 +452,27 @@ def search_stage_excess(cfg, coords, h):
     return float(excess_of(cfg, mx, mn))
 
 
-def recheck_evals(cfg, out, design):
-    """[(where, list, idx, h, logged excess, fresh excess)] for a few logged evaluations."""
+def twin_cfg(cfg):
+    """The sibling of cfg that differs in exactly the one physical input named by cfg['twin_first']."""
+    ph = dict(cfg["phys"])
+    what = cfg["twin_first"]
+    if what == "grout_k":
+        ph["grout"] = (round(ph["grout"][0] * (2.0 if ph["grout"][0] < 1.3 else 0.45), 3), ph["grout"][1])
+    elif what == "soil_k":
+        ph["soil"] = (round(ph["soil"][0] * (1.8 if ph["soil"][0] < 2.2 else 0.5), 3), ph["soil"][1], ph["soil"][2])
+    elif what == "pipe_k":
+        ph["pipe_k"] = round(ph["pipe_k"] * 1.5, 3)
+    elif what == "fluid":
+        ph["fluid"] = ("Water", 0.0) if ph["fluid"][0] != "Water" else ("PropyleneGlycol", 30.0)
+    elif what == "grout_rho_cp":
+        ph["grout"] = (ph["grout"][0], round(ph["grout"][1] * 0.55, 0))
+    else:
+        raise ValueError(what)
+    return {k: v for k, v in {**cfg, "phys": ph}.items() if k not in ("followed_by", "follows", "twin_first")}
+
+
+def pick_evals(cfg, out, design):
+    """Up to three logged evaluations (with the coordinates of their fields) to be re-done from fresh objects."""
     if design is None or cfg["geom"][0] == "ROWWISE":
         return []
     dom = getattr(design, "coordinates_domain", None)
@@ -435,28 +494,83 @@ def recheck_evals(cfg, out, design):
         seen.add(key)
         coords = (dom[e["idx"]] if e["where"] == "flat" else nested[e["list"]][e["idx"]])
         coords = [list(map(float, c)) for c in coords]
-        res.append({"where": e["where"], "list": e["list"], "idx": e["idx"], "h": e["h"], "nbh": len(coords),
-                    "logged": e["excess"], "fresh": search_stage_excess(cfg, coords, e["h"])})
+        res.append({"where": e["where"], "list": e["list"], "idx": e["idx"], "h": e["h"], "nbh": len(coords), "logged": e["excess"], "coords": coords})
     return res
 
 
-def second_project(m, cfgb):
-    """Re-use manager `m` (already used for one project) for configuration B by re-applying only the
-    loads and the geometry, then set_design / find_design."""
-    out = {"id": cfgb["id"]}
+def oracle_job(arg):
+    """Everything that judges a recorded run "from fresh objects" — run in a process of its own, so that
+    nothing the design run left behind in module-level state can reach the judge."""
+    cfg, rec, cfgb = arg
+    os.environ["OMP_NUM_THREADS"] = "1"
+    res = {}
     try:
-        with ghelib.quiet():
-            m.set_ground_loads_from_hourly_list(cfgb["loads"])
-            ghelib.set_geometry(m, cfgb["geom"])
-            m.set_design(cfgb["flow"], cfgb.get("flow_type", "BOREHOLE"))
+        if rec.get("eval_picks"):
+            res["eval_checks"] = [{**{k: v for k, v in p.items() if k != "coords"}, "fresh": search_stage_excess(cfg, p["coords"], p["h"])} for p in rec["eval_picks"]]
+        if rec.get("outcome") == "design":
+            res["oracle_a"] = resimulate(cfg, rec["coords"], rec["H"], at_returned_height=False, base_height=rec.get("oracle_base_height"))
+            res["oracle_b"] = resimulate(cfg, rec["coords"], rec["H"], at_returned_height=True)
+        sec = rec.get("second")
+        if sec and sec.get("outcome") == "design" and cfgb is not None and sec.get("coords"):
+            res["second_oracle_a"] = resimulate(cfgb, sec["coords"], sec["H"], at_returned_height=False)
+    except Exception as e:  # noqa: BLE001
+        res["oracle_error"] = f"{type(e).__name__}: {e}"
+        res["tb"] = traceback.format_exc().splitlines()[-4:]
+    return res
+
+
+def attach_oracles(cfgs, recs):
+    """Phase 2 of get_runs: the fresh-process judges for every record."""
+    by_id = {c["id"]: c for c in cfgs}
+    jobs = []
+    for c, r in zip(cfgs, recs):
+        sec = r.get("second")
+        jobs.append((c, {k: r.get(k) for k in ("eval_picks", "outcome", "coords", "H", "oracle_base_height", "second")}, by_id.get(sec["id"]) if sec else None))
+    for r, o in zip(recs, core.pool_map(oracle_job, jobs, workers=16, fresh=True)):
+        if "oracle_error" in o:
+            r["outcome_before_oracle_error"] = r["outcome"]
+            r["outcome"] = "harness-error"
+            r["message"] = "oracle: " + o["oracle_error"]
+            continue
+        r.pop("eval_picks", None)
+        if "second_oracle_a" in o:
+            r["second"]["oracle_a"] = o.pop("second_oracle_a")
+        if r.get("second"):
+            r["second"].pop("coords", None)
+        r.update(o)
+
+
+def second_project(m, cfgb):
+    """Re-use manager `m` (already used for one project) for configuration B — partial: only the loads
+    and the geometry are re-applied; full: every setter is called again — then set_design / find_design.
+    The evaluations of this second search are recorded like those of the first."""
+    out = {"id": cfgb["id"], "cfg": {k: v for k, v in cfgb.items() if k not in ("loads", "followed_by")}}
+    rec2 = Recorder()
+    try:
+        with ghelib.quiet(), instrument(rec2):
+            if cfgb.get("follow_mode") == "full":
+                ghelib.configure(m, cfgb)
+            else:
+                m.set_ground_loads_from_hourly_list(cfgb["loads"])
+                ghelib.set_geometry(m, cfgb["geom"])
+                m.set_design(cfgb["flow"], cfgb.get("flow_type", "BOREHOLE"))
+            out["mode"] = cfgb.get("follow_mode", "partial")
+            rec2.nested = getattr(m._design, "coordinates_domain_nested", None)
             try:
                 m.find_design()
                 ghe = m._search.ghe
-                out.update(outcome="design", nbh=len(ghe.gFunction.bore_locations), H=float(ghe.bhe.b.H),
+                coords = [list(map(float, c)) for c in ghe.gFunction.bore_locations]
+                out.update(outcome="design", nbh=len(coords), H=float(ghe.bhe.b.H),
                            live_max=float(max(ghe.hp_eft)), live_min=float(min(ghe.hp_eft)),
                            max_boreholes_after=m._simulation_parameters.max_boreholes)
+                out["coords"] = coords      # judged for configuration B from fresh objects in a fresh process (oracle_job)
+                srch = m._search
+                out["sel_key"] = getattr(srch, "selection_key", None)
+                if hasattr(srch, "calculated_heights"):
+                    out["zd_heights"] = {str(k): float(v) for k, v in srch.calculated_heights.items()}
             except Exception as e:  # noqa: BLE001
                 out.update(outcome="ValueError" if isinstance(e, ValueError) else "raise " + type(e).__name__, message=str(e)[:200])
+        out["evals"] = rec2.evals
     except Exception as e:  # noqa: BLE001
         out.update(outcome="harness-error", message=f"{type(e).__name__}: {e}")
     return out
@@ -501,6 +615,7 @@ def get_runs(ctx, n_quick=24, n_thorough=240):
     by_id = {c["id"]: c for c in cfgs}
     cfgs = cfgs + [boundary_cfg(by_id, r) for r in extra]
     recs = recs + extra
+    attach_oracles(cfgs, recs)
     for old in CACHE.glob(f"designs-{ctx.tier}-{ctx.seed}-*.json"):
         old.unlink()
     path.write_text(json.dumps(recs))
